@@ -266,14 +266,20 @@ pub fn run(e: &'static Engine) {
         }
     }));
     e.par(jobs);
-    let total: u32 = e.tier.pick(1600, 24000);
-    let shards = e.tier.pick(16u32, 64);
+    let total: u32 = e.tier.pick(6400, 96000);
+    let shards = e.tier.pick(32u32, 96);
     let mut jobs: Vec<Job> = Vec::new();
     for _ in 0..shards {
         jobs.push(Box::new(move |jc: &mut JobCtx| {
             let strat = (small_build(), cfg_strategy()).prop_map(|(build, cfg)| Case { build, cfg });
             jc.run_prop(1 << 20, &strat, total / shards, to_json, |c, o| {
                 o.label("part:generated");
+                check(c, o)
+            });
+            // steered matrices (whole rows/columns dark, isolated modules, uniform rectangles, edges) under generated configurations
+            let strat = (crate::gens::steered_case(1, 14, true), cfg_strategy()).prop_map(|((build, _), cfg)| Case { build, cfg });
+            jc.run_prop(2 << 20, &strat, total / shards / 4, to_json, |c, o| {
+                o.label("part:steered");
                 check(c, o)
             });
         }));
